@@ -411,3 +411,21 @@ package server
 //@   ensures [C08,C16:start_utf16] result != nil ==> result.Start.Character == b2u(line, 0, 0, startByte)
 //@   loop 1 invariant 0 <= startByte && startByte <= byteCol && byteCol <= len(line)
 //@   loop 1 decreases byteCol - startByte
+
+// ---- C16: the result limit ----
+//@ trusted (*Server).getWorkspaceResolved
+//@   effects none
+//@ trusted determineCompletionContext
+//@   effects none
+//@ trusted (*Server).generateCompletionItems
+//@   ensures fresh(result0) || len(result0) == 0
+//@ trusted extractQueryText
+//@   effects none
+//@ trusted rankCompletionItemsByScore
+//@   ensures len(result) == len(scored) && (fresh(result) || len(result) == 0)
+
+//@ func (*Server).Completion
+//@   props C16 C06
+//@   requires s != nil && params != nil && s.analyzer != nil && DocSmall(s, params.TextDocument.URI)
+//@   ensures [C16:bounded] result0 != nil && (s.settings.Completion.MaxResults > 0 ==> len(result0.Items) <= s.settings.Completion.MaxResults)
+//@   loop 1 invariant 0 - 1 <= rangeindex && (fresh(items) || len(items) == 0) && editRange != nil
